@@ -105,7 +105,7 @@ class Runner:
     """Device-0 slice (pmap) as numpy leaves."""
     import jax
     if self.mode == "pmap":
-      return jax.tree_util.tree_map(lambda x: np.asarray(x[dev]), tree)
+      return jax.tree_util.tree_map(lambda x: np.asarray(x)[dev], tree)
     return jax.tree_util.tree_map(np.asarray, tree)
 
   def count(self, state):
@@ -130,7 +130,7 @@ class Runner:
               "metrics": loc.training_metrics, "n": n,
               "raw_preconditioners": precs}
     ps = state.stats[name]
-    f = (lambda x: np.asarray(x[dev])) if self.mode == "pmap" else np.asarray
+    f = (lambda x: np.asarray(x)[dev]) if self.mode == "pmap" else np.asarray
 
     def deq(q):
       from precondition.quantization_utils import QuantizedValue
@@ -160,7 +160,7 @@ class Runner:
         out[name] = {"err": np.zeros(0), "max_ev": np.zeros(0),
                      "retries": np.zeros(0), "stats": ls["statistics"]}
         continue
-      f = (lambda x: np.asarray(x[dev])) if self.mode == "pmap" \
+      f = (lambda x: np.asarray(x)[dev]) if self.mode == "pmap" \
           else np.asarray
       out[name] = {"err": f(m.inverse_pth_root_errors).astype(np.float64),
                    "max_ev": f(m.max_eigen_value).astype(np.float64),
